@@ -75,6 +75,7 @@ type Contract struct {
 	CheckNil   bool
 	CheckOwnership bool
 	OwnershipOnly  bool
+	AtcallOnly     bool
 	MayPanic   bool
 	// AllocOnly: function-valued parameters assumed to be constructors: a call through them allocates and
 	// returns a fresh non-nil object and writes nothing else (name -> justification)
@@ -591,6 +592,10 @@ func (cs *ContractSet) ParseContractFile(path, pkgPath string) error {
 			}
 			if cur != nil && strings.TrimSpace(rest) == "ownership" {
 				cur.CheckOwnership = true
+			}
+			if cur != nil && strings.TrimSpace(rest) == "atcall only" {
+				// the contract stays a trusted stub for callers; the body is executed only to check its `atcall` assertions
+				cur.AtcallOnly = true
 			}
 			if cur != nil && strings.TrimSpace(rest) == "ownership only" {
 				cur.CheckOwnership = true
